@@ -49,15 +49,40 @@ class AesRules:
                 self.dec = (s, f)
         if not self.enc or not self.dec:
             raise AnalysisBroken('encrypting / decrypting block classes not found')
-        kh = [r for r in prog.records.values() if r['q'].startswith(self.base['q'] + '::') and any(prog.type(f['t']).get('k') == 'array' and prog.type(f['t']).get('n') == 11 for f in r['fields'])]
+        # key schedule: the member class of the base whose constructor takes the key; its round keys are an array of 11 states
+        # inside the object or a pointer to states it allocates
+        T = prog.type
+        kh = []
+        for fld in self.base['fields']:
+            ft = T(fld['t'])
+            if ft.get('k') == 'rec' and ft.get('rec') in prog.records:
+                r = prog.records[ft['rec']]
+                ctor = [f for f in prog.functions.values() if f.get('ctor') and f.get('rec') == r['q'] and len(f['params']) == 1 and T(f['params'][0]['t']).get('k') == 'ptr']
+                rkf = [f for f in r['fields'] if (T(f['t']).get('k') == 'array' and T(f['t']).get('n') == 11)
+                       or (T(f['t']).get('k') == 'ptr' and T(T(f['t'])['to']).get('k') == 'rec')]
+                if len(ctor) == 1 and len(rkf) == 1:
+                    kh.append((r, ctor[0], rkf[0], fld))
         if len(kh) != 1:
             raise AnalysisBroken('key schedule class not found')
-        self.kh = kh[0]
-        self.kh_ctor = next((f for f in prog.functions.values() if f.get('ctor') and f.get('rec') == self.kh['q']), None)
-        self.rk_field = next(f['d'][2:] for f in self.kh['fields'] if prog.type(f['t']).get('n') == 11)
-        self.key_member = next((f['d'][2:] for f in self.base['fields'] if prog.type(f['t']).get('rec') == self.kh['q']), None)
-        if self.kh_ctor is None or self.key_member is None:
-            raise AnalysisBroken('key schedule constructor / member not found')
+        self.kh, self.kh_ctor, rkf, member = kh[0]
+        self.rk_field = rkf['d'][2:]
+        self.rk_heap = T(rkf['t']).get('k') == 'ptr'
+        self.key_member = member['d'][2:]
+
+    RKARR = ('ext', 'roundkeys')
+
+    def rk_loc(self, s, obj, prefix, r, k):
+        """memory key of byte k of round key r of the key-schedule object at (obj, prefix)"""
+        if not self.rk_heap:
+            return (obj, prefix + (self.rk_field, r, '$b', k))
+        p = s.mem.get((obj, prefix + (self.rk_field,)))
+        if p is None or p[0] != 'p' or not p[2] or not isinstance(p[2][-1], int):
+            return None
+        return (p[1], p[2][:-1] + (p[2][-1] + r, '$b', k))
+
+    def rk_install(self, st, obj, prefix):
+        if self.rk_heap:
+            st.mem[(obj, prefix + (self.rk_field,))] = P(self.RKARR, (0,))
 
     # ------------------------------------------------------------------ tier 1: tables
     def tables(self):
@@ -110,7 +135,7 @@ class AesRules:
         bad = []
         n = 0
         for r in range(11):
-            cells = self.cells_of_state(I, s, KH, (self.rk_field, r))
+            cells = [s.mem.get(self.rk_loc(s, KH, (), r, k)) if self.rk_loc(s, KH, (), r, k) else None for k in range(16)]
             for i in range(4):
                 for j in range(4):
                     n += 1
@@ -138,9 +163,10 @@ class AesRules:
         OBJ = ('ext', 'cipher')
         BLK = ('ext', 'block')
         rk = [[ts.v('rk%d_%d' % (r, k)) for k in range(16)] for r in range(11)]
+        self.rk_install(st, OBJ, (self.key_member,))
         for r in range(11):
             for k in range(16):
-                st.mem[(OBJ, (self.key_member, self.rk_field, r, '$b', k))] = ('tb', rk[r][k])
+                st.mem[self.rk_loc(st, OBJ, (self.key_member,), r, k)] = ('tb', rk[r][k])
         bb = [ts.v('b%d' % i) for i in range(16)]
         for i in range(16):
             st.mem[(BLK, (i,))] = ('tb', bb[i])
@@ -176,6 +202,47 @@ class AesRules:
         # the object keeps no state between blocks besides the round keys: every scratch cell read was written first (checked by
         # evaluation from an uninitialised scratch state: an uninitialised read would have produced a non-term value)
 
+    def ownership(self):
+        """R09.o: a cipher object stays the function of (key, block) when it is copied: no class in its object graph releases, in a
+        user-provided destructor, storage that its implicitly generated copy operations would share with the copy."""
+        prog, rec = self.prog, self.rec
+        T = prog.type
+        seen, todo = {}, [self.base['q'], self.enc[0]['q'], self.dec[0]['q']]
+        while todo:
+            q = todo.pop()
+            if q in seen or q not in prog.records:
+                continue
+            r = prog.records[q]
+            seen[q] = r
+            for f in r['fields']:
+                ft = T(f['t'])
+                if ft.get('k') == 'array':
+                    ft = T(ft.get('of') or ft.get('elem') or ft.get('to') or f['t']) if (ft.get('of') or ft.get('elem')) else ft
+                if ft.get('k') == 'rec':
+                    todo.append(ft['rec'])
+            for b in r.get('bases', []):
+                todo.append(b['q'])
+        bad = []
+        for q, r in sorted(seen.items()):
+            if not r.get('udtor'):
+                continue
+            dt = next((f for f in prog.functions.values() if f.get('rec') == q and f['name'].startswith('~')), None)
+            owned = set()
+            if dt is not None:
+                for n in walk(dt['body']):
+                    if n['k'] == 'CXXDeleteExpr' or (n['k'] == 'CallExpr' and n.get('callee', {}).get('q') == 'free'):
+                        for m in walk(n):
+                            if m['k'] == 'MemberExpr' and any(m.get('d', '')[2:] == f['d'][2:] for f in r['fields']):
+                                owned.add(m['d'][2:])
+            if owned and not (r.get('ucopy') and r.get('uassign')):
+                bad.append((q, sorted(owned), '%s:%s' % (dt['file'], dt['line'])))
+        for q, owned, w in bad:
+            rec.ob('R09.o', 'R09.o@%s::copy-shares-owned-storage' % q, False, w,
+                   '%s releases %s in its destructor but its copy constructor / assignment are the implicit member-wise ones: a copied cipher object and '
+                   'its original share (and one of them frees or wipes) the same round keys' % (q, owned))
+        rec.ob('R09.o', 'R09.o@%s::object-graph-copy-safe' % self.base['q'], not bad, self.base['file'],
+               'classes in the cipher object graph (%s): %s' % (', '.join(sorted(seen)), 'none releases storage its implicit copies would share' if not bad else 'NOT copy-safe'))
+
     def key_load(self):
         """The key schedule is computed from exactly the 16 bytes given, by the constructor that every cipher object runs."""
         prog, rec = self.prog, self.rec
@@ -194,7 +261,7 @@ class AesRules:
                 rec.saw(I)
                 if len(res) == 1 and not I.fail:
                     s = res[0][0]
-                    cells = [s.mem.get((OBJ, (self.key_member, self.rk_field, 0, '$b', k))) for k in range(16)]
+                    cells = [s.mem.get(self.rk_loc(s, OBJ, (self.key_member,), 0, k)) if self.rk_loc(s, OBJ, (self.key_member,), 0, k) else None for k in range(16)]
                     ok = all(c == ('tb', ts.v('k%d' % (4 * (k % 4) + k // 4))) for k, c in enumerate(cells))
             rec.ob('R09.k', 'R09.k@%s::object-key-is-argument' % sub['q'], ok, sub['file'],
                    '%s(key): round key 0 of the constructed object is exactly the 16 key bytes given (column-major), on the single path of its constructor' % sub['q'])
